@@ -29,7 +29,7 @@ static void showg(const char *n, i128 v) { printf("  %s = %lld\n", n, (long long
 #define LBm(p) ((p).f0)
 #define UBm(p) ((p).f1)
 #define RIBIN(id, EXPR, COND) REPLAY(id) { RI a = mki(wit, "a"), b = mki(wit, "b"); i128 g_x = GX, g_y = GY; showi("self", a); showi("x", b); showg("g_x", g_x); showg("g_y", g_y); \
-  RI r = EXPR; showi("result", r); I self_ = toI(a), x_ = toI(b), ret_ = toI(r); I *self = &self_, *x = &x_, *ret = &ret_; return i_okz(*ret, ZLIM) && (COND); }
+  RI r = EXPR; showi("result", r); I self_ = toI(a), x_ = toI(b), ret_ = toI(r); I *self = &self_, *x = &x_, *ret = &ret_; return i_okz(*ret, ((i128)1) << 100) && (COND); }
 #define ANYBOT (i_bot(*self) || i_bot(*x))
 RIBIN(i_add, a + b, i_okz(*ret, 2 * ZB) && (ANYBOT ? i_bot(*ret) : i_is(*ret, x_add(LBm(*self), LBm(*x)), x_add(UBm(*self), UBm(*x)))) && (!(i_has(*self, g_x) && i_has(*x, g_y)) || i_has(*ret, g_x + g_y)))
 RIBIN(i_sub, a - b, i_okz(*ret, 2 * ZB) && (ANYBOT ? i_bot(*ret) : i_is(*ret, x_add(LBm(*self), x_neg(UBm(*x))), x_add(UBm(*self), x_neg(LBm(*x))))) && (!(i_has(*self, g_x) && i_has(*x, g_y)) || i_has(*ret, g_x - g_y)))
